@@ -62,7 +62,7 @@ BOUNDS = {
     'thorough': {'skeletons': 16, 'recipes': 'same', 'samples': [1, 2],
                  'metric-law arrays': '<= 3 elements'},
 }
-REACH = {'val': ['compared'], 'metric': ['metric']}
+REACH = {'val': ['compared'], 'metric': ['metric'], 'save': ['save']}
 SKELS = ['single_FC', 'chain_fc_tanh', 'tensor_2_consumers',
          'intermediate_is_output', 'input_is_output', 'single_SPLIT',
          'two_subgraphs_independent', 'two_subgraphs_signatures_reordered',
@@ -212,6 +212,18 @@ def make_harness(ref_bytes, tgt_bytes, metric, n, prior_bytes=None):
       e.check('C18.validate.test_data_not_modified', all(
           [(id(s), {a: id(v) for a, v in s.items()}) for s in test_data[k]]
           == snap[k] for k in test_data))
+      # the flat view is the union of the groups, value for value
+      flat = result.get_all_tensor_results()
+      want_flat = {}
+      for key, _ in c09.signatures(ref_m):
+        r_ = result.get_signature_comparison_result(key)
+        for g_ in (r_.input_tensors, r_.output_tensors, r_.constant_tensors,
+                   r_.intermediate_tensors):
+          want_flat.update(g_)
+      e.check('C18.get_all_tensor_results_is_the_union_of_the_groups',
+              set(flat) == set(want_flat) and all(
+                  flat[k] is want_flat[k] for k in flat),
+              info=[sorted(set(flat) ^ set(want_flat))[:4]])
       # reference values
       ri = fakeinterp.Interpreter(model_content=ref_bytes)
       ti = fakeinterp.Interpreter(model_content=tgt_bytes)
@@ -465,6 +477,58 @@ def job_metric(job):
       f'metric laws on float32 arrays of sizes {job.args["sizes"]}'])
 
 
+def job_save(job):
+  """Concrete, real interpreter: ComparisonResult.save() writes what the
+  groups hold (and the size figures of the two models)."""
+  import copy, json, tempfile, shutil, os
+  bad, n = [], 0
+  for skel, rname in (('chain_fc_tanh', 'shipped:default_a8w8_recipe.json'),
+                      ('two_subgraphs_independent',
+                       'shipped:dynamic_wi8_afp32_recipe.json')):
+    n += 1
+    ref = P.model_bytes_of(skel)
+    tgt = quantized_bytes(skel, rname)
+    if tgt is None:
+      continue
+    qv = quantizer_lib.Quantizer(ref, None)
+    qv._result = quantizer_lib.QuantizationResult([], tgt)
+    d = tempfile.mkdtemp(prefix='c18_save_')
+    try:
+      with np.errstate(all='ignore'):
+        res = qv.validate(None, 'mse')
+      res.save(d, 'm')
+      with open(os.path.join(d, 'm_comparison_result.json')) as fh:
+        on_disk = json.load(fh)
+      if on_disk.get('reduced_size_bytes') != len(ref) - len(tgt):
+        bad.append(f'{skel}: reduced_size_bytes {on_disk.get("reduced_size_bytes")}'
+                   f' != {len(ref) - len(tgt)}')
+      ref_m = flatbuffer_utils.read_model_from_bytearray(bytearray(ref))
+      for key, _ in c09.signatures(ref_m):
+        r_ = res.get_signature_comparison_result(key)
+        got = on_disk.get(str(key))
+        want = {'error_metric': r_.error_metric,
+                'input_tensors': r_.input_tensors,
+                'output_tensors': r_.output_tensors,
+                'constant_tensors': r_.constant_tensors,
+                'intermediate_tensors': r_.intermediate_tensors}
+        if got != json.loads(json.dumps(want)):
+          bad.append(f'{skel}: saved result of signature {key} differs from '
+                     'the groups of the returned result')
+    except Exception as ex:  # pylint: disable=broad-except
+      bad.append(f'{skel}: {type(ex).__name__}: {ex}')
+    finally:
+      shutil.rmtree(d, ignore_errors=True)
+  st = {'paths': n, 'decisions': n, 'obligations': n,
+        'discharged': n - min(n, len(bad)), 'solver_calls': 0,
+        'solver_time': 0.0, 'reached': {'save': n}}
+  cands = [Candidate('C18.saved_result_equals_returned_result',
+                     {'save': True, 'problems': bad[:4]})] if bad else []
+  for c in cands:
+    c.job = job.name
+  return JobResult(job.name, st, cands, [], {}, samples=[
+      f'{n} models: validate() with generated data, save(), reload the JSON'])
+
+
 def jobs(tier, seed):
   cs = case_list(tier)
   js = []
@@ -474,6 +538,7 @@ def jobs(tier, seed):
   for n in (1, 2, 3):
     js.append(Job(f'metric:{n}', job_metric, {
         'sizes': [n], 'timeout': 300 if tier == 'quick' else 900}))
+  js.append(Job('save', job_save, {}))
   return js
 
 
@@ -482,6 +547,10 @@ def jobs(tier, seed):
 # ---------------------------------------------------------------------------
 def replay(c):
   d = c['data']
+  if d.get('save'):
+    r = job_save(Job('save', job_save, {}))
+    pr = [p for cc in r.candidates for p in cc.data['problems']]
+    return bool(pr), 'saved comparison result', str(pr[:3])
   if 'metric_n' in d:
     n = d['metric_n']
     st = d['stats']
